@@ -91,7 +91,11 @@ type c18SrvPlan struct {
 	shufflePct  int // per batch: percentage answered at once but shuffled and split
 	loadPct     int // percentage of responses carrying a transport-layer load above the threshold
 	feedbackPct int
-	stalePct    int // percentage of response messages that additionally carry a stale (re-delivered / never used) id
+	frontMode   int           // connection-level hostility on the address before the real server exists
+	frontFor    time.Duration // how long; 0 with frontMode != none: for ever (the store never comes up)
+	downMode    int           // what occupies the address while the server is down during a restart
+	closeOnDown bool          // the client's pool is closed when the server goes down, so the connection is re-created meanwhile
+	stalePct    int           // percentage of response messages that additionally carry a stale (re-delivered / never used) id
 }
 
 type c18Server struct {
@@ -112,6 +116,7 @@ type c18Server struct {
 	totalRecv atomic.Int64
 	stopped   atomic.Bool
 	neverUsed atomic.Int64
+	frontStop func()
 }
 
 func c18NewServer(run *c18Run, plan c18SrvPlan, rng *rand.Rand) *c18Server {
@@ -161,6 +166,9 @@ func (s *c18Server) stop() {
 func (s *c18Server) shutdown() {
 	s.stopped.Store(true)
 	s.wg.Wait()
+	if s.frontStop != nil {
+		s.frontStop()
+	}
 	s.stop()
 }
 
@@ -178,7 +186,14 @@ func (s *c18Server) maybeRestart(total int64) {
 		defer s.wg.Done()
 		s.run.count("server_restarts", 1)
 		s.stop()
+		if s.plan.closeOnDown {
+			s.run.count("closeaddr", 1)
+			s.run.count("closeaddr_while_down", 1)
+			s.run.rpc.CloseAddr(s.addr)
+		}
+		stopFront := s.front(s.plan.downMode)
 		time.Sleep(time.Duration(s.plan.downMs) * time.Millisecond)
+		stopFront()
 		if err := s.start(); err != nil {
 			s.run.harnessError("server restart: " + err.Error())
 		}
@@ -580,4 +595,96 @@ func (s *c18Server) KvResolveLock(ctx context.Context, req *kvrpcpb.ResolveLockR
 	ex := s.run.rlExecuted(req)
 	ex.ansSeq.Store(s.run.seq.Add(1))
 	return &kvrpcpb.ResolveLockResponse{}, nil
+}
+
+// ---- connection-level hostility: what a client meets on the address while there is no gRPC server
+
+const (
+	c18FrontNone        = iota // nothing listens: connection refused
+	c18FrontBlackHole          // accepts TCP, never speaks HTTP/2
+	c18FrontCloseAccept        // closes every connection right after accept
+)
+
+var c18FrontName = [...]string{"refuse", "blackhole", "closeaccept"}
+
+// front occupies s.addr with the given behaviour and returns the function that ends it.
+func (s *c18Server) front(mode int) (stop func()) {
+	s.run.frontActive.Add(1)
+	s.run.count("front_"+c18FrontName[mode], 1)
+	if mode == c18FrontNone {
+		return func() { s.run.frontActive.Add(-1) }
+	}
+	var lis net.Listener
+	var err error
+	for i := 0; i < 200; i++ {
+		if lis, err = net.Listen("tcp", s.addr); err == nil {
+			break
+		}
+		time.Sleep(5 * time.Millisecond)
+	}
+	if err != nil {
+		s.run.harnessError("front listener: " + err.Error())
+		return func() { s.run.frontActive.Add(-1) }
+	}
+	var mu sync.Mutex
+	var conns []net.Conn
+	closed := false
+	go func() {
+		for {
+			c, err := lis.Accept()
+			if err != nil {
+				return
+			}
+			s.run.count("front_accepts", 1)
+			mu.Lock()
+			if mode == c18FrontCloseAccept || closed {
+				c.Close()
+			} else {
+				conns = append(conns, c)
+			}
+			mu.Unlock()
+		}
+	}()
+	return func() {
+		lis.Close()
+		mu.Lock()
+		closed = true
+		for _, c := range conns {
+			c.Close()
+		}
+		mu.Unlock()
+		s.run.frontActive.Add(-1)
+	}
+}
+
+// startBehindFront reserves an address, lets the hostile front occupy it and brings the real server up later (or never).
+func (s *c18Server) startBehindFront() error {
+	lis, err := net.Listen("tcp", "127.0.0.1:0")
+	if err != nil {
+		return err
+	}
+	s.addr = lis.Addr().String()
+	lis.Close()
+	stopFront := s.front(s.plan.frontMode)
+	if s.plan.frontFor == 0 {
+		s.run.count("front_never_up", 1)
+		s.frontStop = stopFront
+		return nil
+	}
+	s.mu.Lock()
+	s.restarting = true
+	s.wg.Add(1)
+	s.mu.Unlock()
+	go func() {
+		defer s.wg.Done()
+		time.Sleep(s.plan.frontFor)
+		stopFront()
+		if err := s.start(); err != nil {
+			s.run.harnessError("late server start: " + err.Error())
+		}
+		s.mu.Lock()
+		s.restarting = false
+		s.mu.Unlock()
+	}()
+	return nil
 }
